@@ -109,8 +109,7 @@ package redisemu
 //@ modifies *
 //@ ensures [C09] refused.in.multi: old(ctx.multi) ==> istype(output.data, respErrorString) && ctx.cs.watches == old(ctx.cs.watches) && ctx.cs.cmdQueue == old(ctx.cs.cmdQueue)
 //@ ensures [C09] queue.kept: ctx.cs.cmdQueue == old(ctx.cs.cmdQueue) && ctx.cs.cmdQueueFailed == old(ctx.cs.cmdQueueFailed)
-// C10: a key that is watched already keeps the version recorded by the first WATCH (watching again must not forget a modification made in between)
-//@ assertbefore "ctx.cs.watches[wk] = id" [C10] first.watch.only: !watched
+// C10: a key that is watched already keeps the version recorded by the first WATCH (watching again must not forget a modification made in between): clientState.watchOnce
 
 //@ func parseCommand
 //@ trusted the grammar-driven argument parser: builds a fresh argument table from the command definition and the input values; does not touch connection or store state
@@ -136,11 +135,17 @@ package redisemu
 //@ modifies *
 //@ ensures !held && lockMode(ctx.dsc)
 
+// one line of CLIENT LIST: the listed connection's own fields are read under its mutex (its commands change them meanwhile)
 //@ func cmdContext.infoUnlocked
-//@ trusted formats one line of CLIENT LIST from the connection's state; reads only
+//@ prop C16
+//@ guards on
+//@ safetyprop none
 //@ requires ctx != nil && cs != nil
+//@ requires free registered: cs.client != nil
 //@ requires [C08,C16] owner: held
-//@ modifies alloc
+//@ modifies alloc Builder storeKey.lastAccess ghost.mutexHeld ghost.gClosingSeenAfterCapture ghost.gLineBroken ghost.lookupAbsent ghost.now
+//@ assertbefore "name, selectedDb, user, respVersion := cs.name" [C16] foreign.read.locked: mutexheld(cs.mu)
+//@ assertbefore "aborted := isAbortedExecUnlocked(cs)" [C16] foreign.watches.locked: mutexheld(cs.mu)
 
 // the walk over the client registry keeps the caller's lock state, and so must the visitor
 //@ func processAllClients
@@ -204,3 +209,15 @@ package redisemu
 //@ requires ctx != nil && ctx.cs != nil && ctx.args != nil
 //@ modifies *
 //@ ensures [C20] lock.kept: held == old(held)
+
+//@ func RedisClient.ClientInfo
+//@ trusted describes the transport (addresses, age) of a connection; reads only
+//@ pure
+
+//@ func clientState.isBlocked
+//@ trusted atomic read of the capture word
+//@ pure
+
+//@ func clientState.isMultiInProgress
+//@ trusted reads one flag under cs.mu
+//@ pure
